@@ -255,8 +255,12 @@ def project(prop, b, ev, ctx):
             return (None, (ok, tuple(b.msgs), tuple((a.key, a.cls, a.size) for a in b.asks.values() if a.key in ai)))
         if is_exec:
             # the approval status of every ask (class assigned at creation included), and for approved asks the
-            # approver, the amount recorded and the remaining size
-            return (ok, tuple(sorted((a.key, a.cls, a.size if a.cls[0] == "ready" else None) for a in b.asks.values())))
+            # approver, the amount recorded and the remaining size; when an ask leaves or shrinks (cancel, expire,
+            # reject) also what is sent back to whom and by which mechanism (the approver's share must reach them)
+            st = tuple(sorted((a.key, a.cls, a.size if a.cls[0] == "ready" else None) for a in b.asks.values()))
+            if sub in ("cancel_ask", "expire_ask", "reject_ask"):
+                return (ok, (st, flows(b, ev), tuple(sorted(repr(shape(m)) for m in b.msgs))))
+            return (ok, st)
     elif prop == "C09":
         if k == "MIGRATE":
             # fee escrowed and fee consumed so far, per bid, as the migration leaves them
